@@ -13,3 +13,10 @@ pub use server::{RenetServer, ServerEvent};
 pub use bytes::Bytes;
 
 pub type ClientId = u64;
+
+/// Verification hooks: the crate's own packet codec, re-exported so that an external observer can
+/// read the wire format without duplicating it. Only compiled with the `verif` feature.
+#[cfg(feature = "verif")]
+pub mod verif {
+    pub use crate::packet::{Packet, SerializationError, Slice, SLICE_SIZE};
+}
